@@ -11,6 +11,10 @@
      Structural(k, at, n)  truncate / delete / duplicate / zero / 0xFF / bit-flip n bytes at at/64 of the file
      Keyword(a, b, occ)    the occ-th structural keyword a is replaced by b
      Random(n, len, hdr)   len pseudo-random bytes (seeded by n), optionally behind a %PDF header
+     Bomb(name)            a file of a few KB that declares much: 100 000 unbalanced q, a /Kids array naming one page
+                           200 000 times under /Count 2 000 000 000, an object stream announcing 10^8 members, a TJ array
+                           of a million elements, 48 MB of content behind 48 KB of zlib, a cross-reference stream of two
+                           million free entries behind 10 KB
      Tail(s, v)            the last bytes of unfiltered content stream s overwritten by the cut-short token v
      Body(o, v)            the body of non-stream object o replaced: a reference to itself / to the next object,
                            nesting 3000 deep, a scalar, a dictionary whose /Kids is an indirect reference
@@ -40,6 +44,8 @@ Keywords == << <<"endobj", "endobx">>, <<"obj", "obk">>, <<"endstream", "endstre
 ContentTails == << "/Span#4", "/A#", "/A#4G", "(abc", "(a\\", "(\\1", "<4", "<", "[1 2", " BT", " /", " 1.", " -", "<<", "<</A", " ID ", "BI /W 1 ID x", " 0 0 m", "%c", "'", "\"" >>
 \* what may stand where an object's body should be: references that lead nowhere or in circles, nesting beyond any stack, scalars
 BodyVals == << "self", "next", "deep", "deepdict", "null", "[ ]", "<< >>", "42", "(s)", "/N", "true", "99 0 R", "[ 1 0 R 1 0 R ]", "<< /Kids 2 0 R >>" >>
+\* small files that ask for much (built by the harness): counts, sizes and nesting far beyond what the bytes can back
+BombNames == << "deep_q", "wide_kids", "objstm_n", "huge_tj", "flate_content", "xref_entries" >>
 Presets == {"strict", "default", "tolerant", "lenient", "skip_errors"}
 
 \* a fault is well-formed for a base b = [name, nslots, classes (seq of class names, one per slot)]
@@ -48,6 +54,7 @@ WellFormed(b, f) ==
     [] f.k \in StructKinds -> f.at \in 0..63 /\ (f.k = "truncate" \/ f.len \in Lens)
     [] f.k = "keyword" -> \E i \in 1..Len(Keywords) : Keywords[i] = <<f.from, f.to>>
     [] f.k = "random" -> f.len \in 0..4096
+    [] f.k = "bomb" -> InSeq(f.name, BombNames)
     [] f.k = "tail" -> b.ntails > 0 /\ f.stream \in 0..(b.ntails - 1) /\ InSeq(f.val, ContentTails)
     [] f.k = "body" -> b.nbodies > 0 /\ f.obj \in 0..(b.nbodies - 1) /\ InSeq(f.val, BodyVals)
     [] OTHER -> FALSE
